@@ -120,8 +120,9 @@ def detect(sid, props, tier):
         if rc != 0:
             raise SystemExit("patch does not apply: " + out)
         os.makedirs(vc, exist_ok=True)
+        src = os.environ.get("SEED_VERIF_SRC", VERIF)   # a frozen copy of /verif can be used while /verif is being edited
         sh(["rsync", "-a", "--delete", "--exclude", ".git", "--exclude", "build/run", "--exclude", "seeded",
-            VERIF + "/", vc + "/"])
+            src + "/", vc + "/"])
         gm = os.path.join(vc, "harness", "go.mod")
         body = open(gm).read().replace("=> /repo", "=> " + wt)
         open(gm, "w").write(body)
